@@ -1804,6 +1804,430 @@ def accepts_part(ctx, items):
 
 
 # ---------------------------------------------------------------------------
+# the persisting side at statement level (Pickle/PersistModel.v): pickle_dump as a call, Delta.__init__'s choice of where
+# self.diff comes from, the _deserializer choice, Delta.dump's way of calling the serializer, the defaults of the signatures.
+# Correspondence + oracle on every run (persist_stream), and the two source ties:
+#   unpickler  harness/translate/unpickler.py -> DDGen.PickleGen (the LOADING side; the same tie C15 registers: here because the
+#              round-trip corollaries of `persist` are about the generated pickle_load);
+#   persist    harness/translate/persist.py -> DDGen.PersistGen; coq/srctie/PersistGenEquiv.v proves the regenerated pickle_dump /
+#              g_delta_source / ... equal to Pickle/PersistModel.v for all arguments and transfers the C14 round-trip theorems to
+#              g_pickle_load (g_pickle_dump d) = d (core.source_tie_step)
+# ---------------------------------------------------------------------------
+
+SOURCE_TIES = [
+    {"name": "unpickler", "translator": "unpickler", "gen_module": "PickleGen", "equiv": ["PickleGenEquiv"],
+     "needs": ["Pickle.SrcPrimsFacts"],
+     "sources": ["deepdiff/serialization.py", "deepdiff/delta.py", "deepdiff/helper.py"],
+     "fragment": "the LOADING side (C15's source tie, unchanged): SAFE_TO_IMPORT, _RestrictedUnpickler.__init__ / find_class / persistent_load, "
+                 "pickle_load, _RestrictedPickler.persistent_id - needed here because the corollaries of the tie `persist` are stated about the "
+                 "generated pickle_load and the generated persistent_id"},
+    {"name": "persist", "translator": "persist", "gen_module": "PersistGen", "equiv": ["PersistGenEquiv"],
+     "needs": ["Pickle.PersistFacts", "Pickle.PersistShow", "Pickle.SrcPrimsFacts", "Pickle.BytesDeltaProofs"],
+     "sources": ["deepdiff/serialization.py", "deepdiff/delta.py"],
+     "fragment": "the DUMPING / persisting side: serialization.pickle_dump (body, defaults, co_varnames; persistent_id through the tie "
+                 "`unpickler`), the literal JSON_CONVERTOR, Delta.__init__ (defaults deserializer=pickle_load / serializer=pickle_dump, the "
+                 "_deserializer choice, the if/elif chain that selects where self.diff comes from), Delta.dump / dumps / to_dict"}]
+
+PERSIST_HDR = ("From DD Require Import Base.PyStr Base.Value Pickle.Vm Pickle.Codec Pickle.Bytes Pickle.PickleShow Pickle.PicklerHook "
+               "Pickle.SrcPrims Pickle.PersistPrims Pickle.PersistModel Pickle.PersistShow.\nLocal Open Scope Z_scope.")
+PERSIST_KINDS = ["None", "DeepDiff", "Mapping", "strings", "other"]
+_PK = {"None": "KNone", "DeepDiff": "KDeepDiff", "Mapping": "KMapping", "strings": "KStrings", "other": "KOther"}
+
+
+def persist_args():
+    """every combination of arguments Delta.__init__'s source chain distinguishes, in the order of PersistShow.ALL_ARGS:
+    (kind of diff, delta_path, delta_file, delta_diff, flat_dict_list, flat_rows_list given?)"""
+    out = []
+    for k in PERSIST_KINDS:
+        for p in (False, True):
+            for f in (False, True):
+                for dd in (False, True):
+                    for fd in (False, True):
+                        for fr in (False, True):
+                            out.append((k, p, f, dd, fd, fr))
+    return out
+
+
+def _coq_args(a):
+    return "(mkArgs %s %s)" % (_PK[a[0]], " ".join(core.coq_bool(x) for x in a[1:]))
+
+
+def _marker(tag):
+    return {"values_changed": {"root['m']": {"new_value": tag}}}
+
+
+def persist_source_case(ctx, a):
+    """Delta(...) with exactly the arguments of `a`, each carrying a payload that names it: which one becomes Delta.diff, read how
+    (the mode a path is opened in; whether safe_to_import reaches the deserializer).  Correspondence: PersistModel.delta_source.
+    Oracle (the property): a delta persisted as bytes / to a path / to a file object, given alone, comes back with its payload."""
+    from deepdiff import DeepDiff, Delta
+    from deepdiff.helper import FlatDeltaRow
+    from deepdiff.serialization import pickle_dump, pickle_load
+    import deepdiff.delta as DM
+    k, p, f, dd, fd, fr = a
+    kw, seen, opened = {}, [], []
+    if k == "DeepDiff":
+        kw["diff"] = DeepDiff({"m": 0}, {"m": "deepdiff"})
+    elif k == "Mapping":
+        kw["diff"] = _marker("mapping")
+    elif k == "strings":
+        kw["diff"] = pickle_dump(_marker("bytes"))
+    elif k == "other":
+        kw["diff"] = 5
+    if p:
+        fn = os.path.join(ctx.scratch, "persist_source.bin")
+        with open(fn, "wb") as fh:
+            pickle_dump(_marker("path"), file_obj=fh)
+        kw["delta_path"] = fn
+    if f:
+        kw["delta_file"] = io.BytesIO(pickle_dump(_marker("file")))
+    if dd:
+        kw["delta_diff"] = _marker("delta_diff")
+    if fd:
+        kw["flat_dict_list"] = [{"path": ["m"], "action": "values_changed", "value": "flat_dicts"}]
+    if fr:
+        kw["flat_rows_list"] = [FlatDeltaRow(path=["m"], action="values_changed", value="flat_rows")]
+    safe = {"verif_c14_mod.X"}
+
+    def spy_load(content=None, file_obj=None, safe_to_import=None):
+        seen.append(safe_to_import == safe)
+        return pickle_load(content, file_obj, safe_to_import=safe_to_import)
+
+    def spy_open(name, mode="r", *args, **kwargs):
+        opened.append(mode)
+        return open(name, mode, *args, **kwargs)
+    DM.open = spy_open          # a module global of deepdiff.delta that shadows the builtin while the constructor runs
+    try:
+        try:
+            d = Delta(deserializer=spy_load, safe_to_import=safe, **kw)
+            tag = d.diff["values_changed"]["root['m']"]["new_value"]
+            same_obj = {"mapping": "diff", "delta_diff": "delta_diff"}.get(tag)
+            if tag == "deepdiff":
+                obs = ["to_delta_dict"]
+            elif same_obj:
+                obs = ["as-is", same_obj] if d.diff is kw[same_obj] else ["copied", same_obj]
+            elif tag == "bytes":
+                obs = ["deserialize", ["arg", "diff"], bool(seen and seen[-1])]
+            elif tag == "path":
+                obs = ["deserialize", ["path", "delta_path", opened[-1] if opened else "?"], bool(seen and seen[-1])]
+            elif tag == "file":
+                obs = ["deserialize", ["file.read", "delta_file"], bool(seen and seen[-1])]
+            else:
+                obs = [tag, "flat_dict_list" if tag == "flat_dicts" else "flat_rows_list"]
+            payload = d.diff
+        except ValueError as e:
+            obs, payload = ["ValueError", str(e)], None
+        except AttributeError:
+            obs, payload = ["unset"], None
+        except Exception as e:  # noqa
+            obs, payload = ["raises", type(e).__name__], None
+    finally:
+        del DM.open
+    case = {"persist": "source", "args": list(a)}
+    ctx.seen(("persist-source", a))
+    given = [nm for nm, on in zip(("delta_path", "delta_file", "delta_diff", "flat_dict_list", "flat_rows_list"), a[1:]) if on]
+    alone = {("strings", ()): "bytes", ("None", ("delta_path",)): "path", ("None", ("delta_file",)): "file"}.get((k, tuple(given)))
+    if alone and (payload is None or not typed_payload_eq(payload, _marker(alone))):
+        ctx.fail(dict(case, stage="load", source=alone, observed=repr(obs)),
+                 "a delta persisted as %s and handed to Delta(...) alone does not come back with its payload" % alone)
+    ctx.count("persist:source " + obs[0])
+    return ("sx_source (delta_source %s)" % _coq_args(a), obs, case)
+
+
+def _persist_fns():
+    from deepdiff.serialization import pickle_load, pickle_dump
+    import functools
+    rec = []
+
+    def load_with_safe(obj, safe_to_import=None):
+        rec.append(("load", "kw" if safe_to_import is not None else "no-kw"))
+        return pickle_load(obj, safe_to_import=safe_to_import)
+
+    def load_plain(obj):
+        rec.append(("load", "no-kw"))
+        return pickle_load(obj)
+
+    def dump_with_file(obj, file_obj=None):
+        rec.append(("dump", "file_obj" if file_obj is not None else "no-kw"))
+        return pickle_dump(obj, file_obj=file_obj)
+
+    def dump_plain(obj):
+        rec.append(("dump", "no-kw"))
+        return pickle_dump(obj)
+    loaders = [("with safe_to_import", load_with_safe), ("plain", load_plain), ("partial (no __code__)", functools.partial(load_with_safe)),
+               ("pickle_load", pickle_load)]
+    dumpers = [("with file_obj", dump_with_file), ("plain", dump_plain), ("pickle_dump", pickle_dump)]
+    return rec, loaders, dumpers
+
+
+def _coq_strs(names):
+    return "[%s]" % "; ".join(core.coq_string(x) for x in names)
+
+
+def persist_choice_cases(ctx):
+    """the _deserializer choice and Delta.dump's way of calling the serializer, on callables with / without the parameter looked
+    for, and the facts about the two signatures the defaults rely on"""
+    import inspect
+    from unittest import mock
+    from deepdiff import DeepDiff, Delta
+    import deepdiff.serialization as S
+    rec, loaders, dumpers = _persist_fns()
+    cases = []
+    content = S.pickle_dump(_marker("bytes"))
+    for nm, fn in loaders:
+        del rec[:]
+        case = {"persist": "deserializer-choice", "deserializer": nm}
+        has_code = hasattr(fn, "__code__")
+        names = list(fn.__code__.co_varnames) if has_code else []
+        if fn is S.pickle_load:
+            calls = []
+            with mock.patch.object(S._RestrictedUnpickler, "__init__", autospec=True,
+                                   side_effect=lambda self, *a, **k: calls.append(k.get("safe_to_import"))):
+                try:
+                    Delta(content, safe_to_import={"a.b"})
+                except Exception:  # the patched constructor builds no unpickler
+                    pass
+            obs = "direct" if calls and calls[0] == {"a.b"} else "wrapped"
+        else:
+            try:
+                d = Delta(content, deserializer=fn, safe_to_import={"a.b"})
+                if not typed_payload_eq(d.diff, _marker("bytes")):
+                    ctx.fail(dict(case, stage="payload"), "Delta(bytes, deserializer=%s) carries a different payload" % nm)
+                obs = "direct" if rec and rec[-1] == ("load", "kw") else "wrapped"
+            except Exception as e:  # noqa
+                obs = "raises " + type(e).__name__
+                ctx.fail(dict(case, stage="load", error=type(e).__name__), "Delta(bytes, deserializer=%s) raised %s" % (nm, type(e).__name__))
+        ctx.seen(("persist-choice", nm))
+        cases.append(("sx_choice (deserializer_choice %s %s)" % (core.coq_bool(has_code), _coq_strs(names)), obs, case))
+    dd = DeepDiff({"m": 0}, {"m": 1})
+    for nm, fn in dumpers:
+        del rec[:]
+        case = {"persist": "dump-mode", "serializer": nm}
+        buf = io.BytesIO()
+        buf.write(b"HDR")
+        try:
+            if fn is S.pickle_dump:
+                calls = []
+                real = S.pickle_dump
+
+                def spy(obj, file_obj=None, protocol=4):
+                    calls.append("file_obj" if file_obj is not None else "no-kw")
+                    return real(obj, file_obj=file_obj, protocol=protocol)
+                d = Delta(dd, serializer=spy)
+                d.dump(buf)
+                obs = ["serializer-keyword", "file_obj"] if calls == ["file_obj"] else ["write-dumps"]
+            else:
+                d = Delta(dd, serializer=fn)
+                d.dump(buf)
+                obs = ["serializer-keyword", "file_obj"] if rec == [("dump", "file_obj")] else ["write-dumps"]
+            got = buf.getvalue()
+            back = P.real_load(got[3:], None)
+            if got[:3] != b"HDR" or back["cls"] != "ok" or not typed_payload_eq(back["result"], d.diff):
+                ctx.fail(dict(case, stage="dump(file)"), "Delta.dump(file) with serializer=%s does not append a dump that loads to the payload" % nm)
+        except Exception as e:  # noqa
+            obs = ["raises", type(e).__name__]
+            ctx.fail(dict(case, stage="dump(file)", error=type(e).__name__), "Delta.dump(file) with serializer=%s raised" % nm)
+        names = list((spy if fn is S.pickle_dump else fn).__code__.co_varnames)
+        ctx.seen(("persist-dump-mode", nm))
+        cases.append(("sx_dump_mode (delta_dump_mode %s)" % _coq_strs(names), obs, case))
+    sig = inspect.signature(Delta.__init__).parameters
+    psig = inspect.signature(S.pickle_dump).parameters
+    cases.append(("SL [SA DEFAULT_DESERIALIZER; SA DEFAULT_SERIALIZER; SZ PICKLE_DUMP_PROTOCOL; sx_strs PICKLE_DUMP_VARNAMES; sx_strs PICKLE_LOAD_VARNAMES; "
+                  "sx_dump_mode delta_dumps_mode_obs]",
+                  [getattr(sig["deserializer"].default, "__name__", "?"), getattr(sig["serializer"].default, "__name__", "?"),
+                   psig["protocol"].default, list(S.pickle_dump.__code__.co_varnames), list(S.pickle_load.__code__.co_varnames),
+                   ["serializer-keyword", "file_obj"]],
+                  {"persist": "signatures"}))
+    return cases
+
+
+PERSIST_PAYLOADS = None
+
+
+def persist_payloads():
+    """a small fixed universe of payloads (every constructor of Codec.pv at least once, the class type(None) at several positions)"""
+    global PERSIST_PAYLOADS
+    if PERSIST_PAYLOADS is None:
+        Opcode, SetOrdered = _helper()
+        PERSIST_PAYLOADS = [
+            {}, _marker("x"), {"values_changed": {"root[0]": {"new_value": None, "old_value": 2.5}}},
+            {"type_changes": {"root['a']": {"old_type": type(None), "new_type": int, "new_value": 1, "old_value": None}}},
+            {"iterable_item_added": {"root[1]": type(None), "root[2]": [type(None), (1, type(None))]}},
+            {"set_item_added": {"root": {1, 2, "x"}}, "set_item_removed": {"root": set()}},
+            {"dictionary_item_added": {"root['k']": (1, b"\x00\xff", frozenset({3}), {"n": [True, False]})}},
+            {"_iterable_opcodes": {"root": [Opcode("insert", 0, 0, 0, 2, [], [9, type(None)])]}, "_numpy_paths": {}},
+            {"values_changed": {"root['s']": {"new_value": "é中", "old_value": 2 ** 70}}},
+            {"type_changes": {"root": {"old_type": list, "new_type": SetOrdered, "new_value": SetOrdered([1, 2])}}},
+        ]
+    return PERSIST_PAYLOADS
+
+
+PERSIST_FILES = [("none", None, "WNone"), ("empty-file", b"", "(WFile [])"), ("file-with-header", b"HDR\x00", "(WFile [72; 68; 82; 0]%N)")]
+
+
+def persist_dump_case(ctx, pi, fi):
+    """serialization.pickle_dump as a call: bytes returned when no file object is given, None returned and the dump appended to the
+    file object otherwise; either way what was written loads to the payload (oracle) and the model VM reads it (correspondence)"""
+    from deepdiff.serialization import pickle_dump
+    payload = persist_payloads()[pi]
+    form, pre, fcoq = PERSIST_FILES[fi]
+    case = {"persist": "pickle_dump", "payload_index": pi, "payload": repr(payload), "file": form}
+    ctx.seen(("persist-dump", pi, fi))
+    try:
+        if pre is None:
+            r = pickle_dump(payload)
+            written, kept = r, True
+            kind = "bytes" if isinstance(r, bytes) else "None" if r is None else type(r).__name__
+            third = True
+        else:
+            buf = io.BytesIO()
+            buf.write(pre)
+            r = pickle_dump(payload, file_obj=buf)
+            got = buf.getvalue()
+            kept = got[:len(pre)] == pre
+            written = got[len(pre):]
+            kind = "bytes" if isinstance(r, bytes) else "None" if r is None else type(r).__name__
+            third = "-" if r is None else (r == got)
+    except Exception as e:  # noqa
+        ctx.fail(dict(case, stage="dump", error=type(e).__name__), "pickle_dump raised %s" % type(e).__name__)
+        return None
+    back = P.real_load(written, None) if isinstance(written, bytes) and written else {"cls": "nothing written", "exc": None}
+    if back["cls"] != "ok" or not typed_payload_eq(back["result"], payload):
+        ctx.fail(dict(case, stage="load", error=back.get("exc"), returned=kind),
+                 "what pickle_dump %s does not load to the payload" % ("returns" if pre is None else "writes into the file object"))
+        return None
+    if (pre is None) != (kind == "bytes") or not kept:
+        ctx.fail(dict(case, stage="return", returned=kind, prefix_kept=kept),
+                 "pickle_dump returns %s %s a file object%s" % (kind, "without" if pre is None else "with", "" if kept else " and overwrites what the file held"))
+    ctx.count("persist:pickle_dump " + form)
+    try:
+        pcoq = pv_coq(payload)
+        exp_load = [pv_canon(back["result"]), [[m, n] for m, n, r_ in back["calls"] if r_]]
+    except Unsupported:
+        return None
+    bs = P.coq_bytes(written)
+    pre_coq = "[]" if not pre else P.coq_bytes(pre)
+    return ("SL [sx_dump_kind %s (pickle_dump_call %s %s PICKLE_DUMP_PROTOCOL); sx_load_bytes default_world %s %s]" % (
+                pre_coq, pcoq, fcoq, P.coq_c_dialect(written), bs),
+            [[kind, kept, third], exp_load], case)
+
+
+def persist_stream(ctx, only=None):
+    """only: {"source": [argument tuples], "dump": [(payload index, file index)], "choice": bool} - the inputs a broken source tie
+    points at; None: everything"""
+    import logging
+    logging.disable(logging.CRITICAL)
+    cases = []
+    for a in (persist_args() if only is None else only.get("source", [])):
+        cases.append(persist_source_case(ctx, a))
+    if only is None or only.get("choice"):
+        cases += persist_choice_cases(ctx)
+    pairs = [(pi, fi) for pi in range(len(persist_payloads())) for fi in range(len(PERSIST_FILES))] if only is None else only.get("dump", [])
+    for pi, fi in pairs:
+        c = persist_dump_case(ctx, pi, fi)
+        if c is not None:
+            cases.append(c)
+    hdr = PERSIST_HDR + "\nDefinition delta_dumps_mode_obs : dump_mode := delta_dump_mode PICKLE_DUMP_VARNAMES."
+    ctx.coq_cases("c14_persist" if only is None else "c14_persist_tie", hdr, cases, shard=120,
+                  label="persisting side, statement level: Delta's source selection, _deserializer choice, Delta.dump, pickle_dump as a call"
+                        + ("" if only is None else " (inputs the broken source tie points at)"))
+    return len(cases)
+
+
+def _persist_tie_eval(ctx):
+    """one Coq evaluation: where the definitions regenerated from the current source (DDGen.PersistGen) and Pickle/PersistModel.v differ"""
+    import re as _re
+    gen_dir = os.path.join(ctx.scratch, "srctie")
+    ctx.ensure_built(PERSIST_HDR)
+    rec, loaders, dumpers = _persist_fns()
+    namelists = [[], ["obj"], ["obj", "file_obj"], ["obj", "safe_to_import"], ["content", "file_obj", "safe_to_import"],
+                 ["obj", "file_obj", "protocol", "file_obj_passed"], ["file", "fileobj"], ["safe_to_import"], ["file_obj"]]
+    dumps = [(pi, fi, pr) for pi in range(len(persist_payloads())) for fi in range(len(PERSIST_FILES)) for pr in (0, 1, 2)]
+    protos = ["PICKLE_DUMP_PROTOCOL", "g_pickle_dump_protocol_default", "3"]
+    values = []
+    for p in persist_payloads():
+        values.append(pv_coq(p))
+    values += ["PNoneType", "(PAtom ANone)", "(PAtom (AStr %s))" % core.coq_pystr("<<NoneType>>"), "(PTuple [PNoneType])", "(PList [])",
+               "(PType (s2p \"builtins\") (s2p \"int\"))"]
+    L = ["From Coq Require Import List String ZArith NArith Bool.", "Import ListNotations.", "From DD Require Import Base.Sx.", PERSIST_HDR,
+         "From DDGen Require Import PickleGen PersistGen.", "Local Open Scope string_scope.",
+         "Definition PAYLOADS : list pv := [%s]." % "; ".join(pv_coq(p) for p in persist_payloads()),
+         "Definition FILES : list wfile := [%s]." % "; ".join(f[2] for f in PERSIST_FILES),
+         "Definition PROTOS : list Z := [%s]." % "; ".join(protos),
+         "Definition DUMPS : list (pv * wfile * Z) := flat_map (fun p => flat_map (fun f => map (fun z => (p, f, z)) PROTOS) FILES) PAYLOADS.",
+         "Definition NAMELISTS : list (list string) := [%s]." % "; ".join(_coq_strs(n) for n in namelists),
+         "Definition CHOICES : list (bool * list string) := flat_map (fun b => map (fun l => (b, l)) NAMELISTS) [true; false].",
+         "Definition VALUES : list pv := [%s]." % "; ".join(values),
+         "Definition so (o : option pystr) : sx := match o with Some s => SL [sx_str s] | None => SL [] end.",
+         'Eval vm_compute in ("BEGIN" ++ nl ++ show_sx (SL ['
+         "idx_diff (fun a => sx_source (g_delta_source a)) (fun a => sx_source (delta_source a)) ALL_ARGS; "
+         "idx_diff (fun q => sx_choice (g_deserializer_choice (fst q) (snd q))) (fun q => sx_choice (deserializer_choice (fst q) (snd q))) CHOICES; "
+         "idx_diff (fun l => sx_dump_mode (g_Delta_dump_mode l)) (fun l => sx_dump_mode (delta_dump_mode l)) NAMELISTS; "
+         "idx_diff (fun q => sx_dump_res (g_pickle_dump (fst (fst q)) (snd (fst q)) (snd q))) "
+         "(fun q => sx_dump_res (pickle_dump_call (fst (fst q)) (snd (fst q)) (snd q))) DUMPS; "
+         "idx_diff (fun v => so (hook_of g_persistent_id v)) (fun v => so (persistent_id v)) VALUES; "
+         "idx_diff (fun x => fst x) (fun x => snd x) [(SZ g_pickle_dump_protocol_default, SZ PICKLE_DUMP_PROTOCOL); "
+         "(sx_wfile g_pickle_dump_file_obj_default, sx_wfile WNone); (SA g_Delta_default_deserializer, SA DEFAULT_DESERIALIZER); "
+         "(SA g_Delta_default_serializer, SA DEFAULT_SERIALIZER); "
+         '(sx_bool (str_in "file_obj" g_pickle_dump_co_varnames), sx_bool (str_in "file_obj" PICKLE_DUMP_VARNAMES)); '
+         '(sx_bool (str_in "safe_to_import" g_pickle_load_co_varnames), sx_bool (str_in "safe_to_import" PICKLE_LOAD_VARNAMES)); '
+         '(sx_bool (str_in "safe_to_import" g_pickle_dump_co_varnames), sx_bool false); '
+         "(sx_dump_mode (g_Delta_dump_mode g_pickle_dump_co_varnames), sx_dump_mode (delta_dump_mode PICKLE_DUMP_VARNAMES)); "
+         "(sx_choice (g_deserializer_choice true g_pickle_load_co_varnames), sx_choice (deserializer_choice true PICKLE_LOAD_VARNAMES))]"
+         ']) ++ "END").']
+    fn = os.path.join(ctx.scratch, "tie_c14_diff.v")
+    with open(fn, "w") as f:
+        f.write("\n".join(L) + "\n")
+    rc, out = core.sh(["coqc", "-Q", core.THEORIES, "DD", "-Q", gen_dir, "DDGen", fn], timeout=900, cwd=ctx.scratch)
+    m = _re.search(r'"BEGIN\s*\n(.*)END"', out, _re.S)
+    if rc != 0 or not m:
+        return None, out[-1500:]
+    groups = _re.findall(r"\(([-0-9 \n]*)\)", m.group(1))
+    nums = [[int(x) for x in g.split()] for g in groups]
+    if len(nums) != 6:
+        return None, "unexpected shape: " + m.group(1)[:300]
+    keys = ["delta_source", "deserializer_choice", "Delta_dump_mode", "pickle_dump", "persistent_id", "defaults_and_signatures"]
+    return {"totals": {k_: n[0] for k_, n in zip(keys, nums)}, "idx": {k_: n[1:] for k_, n in zip(keys, nums)}, "dumps": dumps}, None
+
+
+def on_source_tie_break(ctx, name, rec):
+    """a source tie is not intact: look for a concrete input on which the definitions generated from the current source and the
+    hand-written model differ, and judge it like any generated case (direct oracle -> ctx.fail, model / implementation
+    disagreement -> correspondence break).  Never fails by itself."""
+    out = {"status": rec.get("status")}
+    if name == "unpickler":
+        out["searched"] = ("the loading side is C15's fragment: its differencing search is on_source_tie_break of harness/props/c15.py "
+                           "(./check C15); here the pickle streams of this run use their thorough-size budgets")
+        return out
+    if rec.get("status") in ("translator-rejected", "generated-model-does-not-compile") or \
+            not os.path.exists(os.path.join(ctx.scratch, "srctie", "PersistGen.vo")):
+        out["searched"] = ("nothing to compare (no generated definitions); the statement-level stream runs in full as on every run and the "
+                           "dump / load streams of this run use their thorough-size budgets")
+        return out
+    diff, err = _persist_tie_eval(ctx)
+    out["compared"] = {"argument combinations of Delta.__init__": 160, "callables x name lists": 18, "name lists": 9,
+                       "payloads x file objects x protocols": len(persist_payloads()) * len(PERSIST_FILES) * 3, "values shown to persistent_id":
+                       len(persist_payloads()) + 6, "defaults / signature facts": 9}
+    if diff is None:
+        out["error"] = "the differencing file did not evaluate: " + (err or "")
+        return out
+    out["differences"] = diff["totals"]
+    args = persist_args()
+    only = {"source": [args[i] for i in diff["idx"]["delta_source"][:12]],
+            "choice": bool(diff["totals"]["deserializer_choice"] or diff["totals"]["Delta_dump_mode"] or diff["totals"]["defaults_and_signatures"]),
+            "dump": sorted(set((diff["dumps"][i][0], diff["dumps"][i][1]) for i in diff["idx"]["pickle_dump"]))[:12]}
+    if diff["totals"]["persistent_id"] and not only["dump"]:
+        only["dump"] = [(pi, fi) for pi in range(len(persist_payloads())) for fi in (0, 2)]
+    out["first_differences"] = {"delta_source arguments (diff kind, delta_path, delta_file, delta_diff, flat_dict_list, flat_rows_list)": only["source"][:6],
+                                "pickle_dump (payload index, file object)": [[pi, PERSIST_FILES[fi][0]] for pi, fi in only["dump"][:6]]}
+    b0, f0 = len(ctx.breaks), len(ctx.failures)
+    if only["source"] or only["choice"] or only["dump"]:
+        out["judged_on_the_implementation"] = persist_stream(ctx, only)
+    out["located_on_the_implementation"] = len(ctx.failures) > f0 or len(ctx.breaks) > b0
+    return out
+
+
+# ---------------------------------------------------------------------------
 # known findings
 # ---------------------------------------------------------------------------
 
@@ -1861,9 +2285,16 @@ def fixed_witnesses(ctx):
 
 
 def run(ctx):
-    n = 2600 if ctx.thorough else 520
-    out = {"vm": [], "enc": [], "json": [], "acc": [], "dlt": [], "jset": [], "enc_max": 600 if ctx.thorough else 160}
+    # a source tie that is not intact (the model fragment regenerated from the current source is no longer proved equal to the
+    # hand-written model) and whose differencing search located nothing on the implementation escalates the dump / load stream
+    located = any(bool((r.get("search") or {}).get("located_on_the_implementation")) for r in ctx.source_ties.values())
+    big = ctx.thorough or (ctx.tie_broken() and not located)
+    if big and not ctx.thorough:
+        ctx.note("escalated", "a source tie of C14 is not intact: the dump / load stream runs with its thorough-size budget")
+    n = 2600 if big else 520
+    out = {"vm": [], "enc": [], "json": [], "acc": [], "dlt": [], "jset": [], "enc_max": 600 if big else 160}
     interference_stream(ctx)       # first: everything below also runs after the unrelated calls
+    persist_stream(ctx)
     for i in range(n):
         one_case(ctx, ctx.rng, i, out)
     classvalue_stream(ctx, out)
@@ -1897,6 +2328,18 @@ def replay(ctx, data):
         install_exotic()
         print("replay: exotic value case %d (%s), bidirectional=%s" % (case["exotic"], case.get("what"), case.get("bidirectional")))
         exotic_one(ctx, case["exotic"], case.get("bidirectional", False))
+        return
+    if "persist" in case:
+        print("replay: statement-level case %r" % (case,))
+        if case["persist"] == "source":
+            persist_stream(ctx, {"source": [tuple(case["args"])]})
+        elif case["persist"] == "pickle_dump":
+            fi = [i for i, f_ in enumerate(PERSIST_FILES) if f_[0] == case.get("file")][0]
+            persist_stream(ctx, {"dump": [(case["payload_index"], fi)]})
+        else:
+            persist_stream(ctx, {"choice": True})
+        for f_ in ctx.failures[:3]:
+            print("replay: FAILS - %s" % f_["what"])
         return
     if "classval" in case:
         spec = case["classval"]
